@@ -90,7 +90,8 @@ def run(ctx):
     nonfinite_diffs = 0
     for st, lines in streams.items():
         outs = {b: C.run_parallel([p, st], lines) for b, p in bins.items()}
-        model = C.run_parallel([ctx.driver, st], lines, idle_timeout=60)
+        mlines = [c14.resolve_hr(l) for l in lines] if st == "serde" else lines     # the model has no human-readable switch node
+        model = C.run_parallel([ctx.driver, st], mlines, idle_timeout=60)
         base = outs["default"]
         per_stream[st] = len(lines)
         for k, line in enumerate(lines):
@@ -119,7 +120,7 @@ def run(ctx):
                 if S.canon_eval(ref) != S.canon_eval(m):
                     ctx.violation(st, line[:600], S.canon_eval(ref)[:200], S.canon_eval(m)[:200], "default build differs from the model")
             elif st == "serde":
-                if ref != m and not (line.startswith("ser") and c14.has_nonstring_key(line)):
+                if ref != m and not (line.startswith("ser") and c14.has_nonstring_key(c14.resolve_hr(line))):
                     ctx.violation(st, line[:600], ref[:200], m[:200], "default build differs from the model")
         if len(ctx.samples) < 8:
             ctx.samples.append(dict(stream=st, case=lines[0][:120], builds={b: (outs[b][0] or "")[:80] for b in bins}))
